@@ -1098,12 +1098,14 @@ class CSSParser:
         # Ignore whitespace and comments at start and end of pattern
         m = RE_WS_BEGIN.search(pattern)
         index = m.end(0) if m else 0
-        m = RE_WS_END.search(pattern)
-        end = (m.start(0) - 1) if m else (len(pattern) - 1)
+        end = len(pattern) - 1
 
         if self.debug:  # pragma: no cover
             print(f'## PARSING: {pattern!r}')
         while index <= end:
+            # Ignore whitespace and comments at the end of the pattern (only looked for between tokens)
+            if RE_WS_END.match(pattern, index):
+                break
             m = None
             for v in self.css_tokens:
                 m = v.match(pattern, index, self.flags)
